@@ -847,6 +847,9 @@ pub struct VecExec<V: VecLike> {
     pub forced: bool,
     pub stats: Counter,
     pub last_op_committed: bool,
+    /// a read-only clone taken at the end of the previous probe (C08/C20): clones share the stored
+    /// length with the writer and must keep observing its later states
+    pub old_ro: Option<V::RO>,
 }
 
 fn classify_err(e: &vecdb::Error) -> &'static str {
@@ -889,6 +892,7 @@ impl<V: VecLike> VecExec<V> {
             forced,
             stats: Counter::default(),
             last_op_committed: true,
+            old_ro: None,
         })
     }
 
@@ -1008,6 +1012,10 @@ impl<V: VecLike> VecExec<V> {
     /// Executes `op` on both sides and compares. `Err` = first mismatch.
     pub fn step(&mut self, op: &VOp) -> Result<(), VMismatch> {
         self.stats.bump(&format!("op:{}", op.kind()));
+        if matches!(op, VOp::Reimport | VOp::ReimportKeep(_) | VOp::BadImportVersion | VOp::BadImportFormat) {
+            // every handle on the vector's regions must be gone before it is imported again
+            self.old_ro = None;
+        }
         let before = self.model.clone();
         let pre = (
             self.v().v_stored_len(),
